@@ -119,7 +119,7 @@ class MapState:
 
 
 class State:
-    __slots__ = ('frames', 'fmeta', 'objs', 'maps', 'zone', 'events', 'unwinding', 'depth',
+    __slots__ = ('loops', 'frames', 'fmeta', 'objs', 'maps', 'zone', 'events', 'unwinding', 'depth',
                  'next_id', 'assumed', 'notes', 'keep', 'pairs')
 
     def __init__(self):
@@ -135,6 +135,7 @@ class State:
         self.assumed = ()
         self.notes = ()
         self.keep = frozenset()   # heap cells that model caller-owned memory (never collected)
+        self.loops = ()           # keys of the loops this path is currently inside, outermost first
         self.pairs = {}           # opaque array tag -> (x, y, J) | None: pairwise-compared prefix (DESIGN §14.8)
 
     def fork(self):
@@ -152,6 +153,7 @@ class State:
         s.notes = self.notes
         s.keep = self.keep
         s.pairs = dict(self.pairs)
+        s.loops = self.loops
         return s
 
     def new_id(self, prefix):
